@@ -130,3 +130,119 @@ TRUSTED = ["autograd theory [T] as in C01; chain rule through the features: the 
            "summaries of Jac._differentiate, Aggregate._compute, Accumulate._compute, Diagonalize (proved in C15 / C06)"]
 ASSUMPTIONS = ["C02: BOUNDED in the number of tasks (t <= 2 quick, 3 thorough); precondition: features duplicate-free, non-empty, "
                "with at least one scalar; parameter groups duplicate-free, disjoint from features and shared parameters; all expect grad"]
+
+
+# ----------------------------------------------------------------------------- pipeline-structure contract (any small t)
+
+
+def flatten_composition(o):
+    """outer << ... << inner  ->  [outermost, ..., innermost]"""
+    from tjv.pyvc.interp import SymObj
+    if isinstance(o, SymObj) and o.cls.name == "Composition":
+        return flatten_composition(o.attrs["outer"]) + flatten_composition(o.attrs["inner"])
+    return [o]
+
+
+def seq_eq(cx, a, b, name):
+    """two tensor sequences are equal element-wise (same length, same elements in the same order)"""
+    a = a if isinstance(a, V.SymSeq) else P.conc_seq(a)
+    b = b if isinstance(b, V.SymSeq) else P.conc_seq(b)
+    j = cx.fresh_int("sj")
+    return z3.And(lift(a.length) == lift(b.length),
+                  z3.Implies(z3.And(0 <= j, j < lift(a.length)), a.get(j).ref == b.get(j).ref))
+
+
+def keys_of(it, od):
+    return P.to_symmap(it, od).keys if not isinstance(od, dict) else P.conc_seq(list(od.keys()))
+
+
+def set_is(cx, it, s, seq, name):
+    """the set s is exactly the set of elements of seq"""
+    S2 = P.set_from_seq(it, seq) if isinstance(seq, V.SymSeq) else seq
+    if isinstance(s, set) and isinstance(S2, set):
+        return z3.BoolVal(s == S2)
+    return P.lift_set(it, s).arr == P.lift_set(it, S2).arr
+
+
+def mtl_structure(t):
+    def fn(H):
+        def body(cx):
+            captured = []
+
+            def capture(interp, args, kwargs):
+                captured.append(args[0])
+                return None
+            ov = dict(A.SUMMARIES)
+            ov[f"{TR}.base.Transform.__call__"] = capture
+            it = H.interp(cx, loop_specs=A.LOOPS, overrides=ov)
+            F = A.tensor_list(cx, "F", distinct=True, min_len=1)
+            S = A.tensor_list(cx, "S", distinct=True)
+            TP = [A.tensor_list(cx, f"TP{i}", distinct=True) for i in range(t)]
+            losses = [V.TRef(z3.Const(f"loss{i}", A.TenS)) for i in range(t)]
+            for L in losses:
+                cx.assume(U("ndim", z3.IntSort(), U("shape", A.ShapeS, L.ref)) == 0)
+            disjoint_seqs(cx, S, F)
+            for i in range(t):
+                disjoint_seqs(cx, TP[i], F)
+                disjoint_seqs(cx, TP[i], S)
+                all_expect(cx, TP[i])
+            all_expect(cx, S)
+            k, kn = z3.Int("chunk"), z3.Bool("chunk_is_none")
+            cx.assume(z3.Or(kn, k > 0))
+            rg = z3.Bool("retain_graph")
+            agg = AbstractAgg(cx, may_raise=False)
+            kind, out = call_catch(lambda: it.call(H.repo.get(f"{AJ}.mtl_backward.mtl_backward"),
+                                                   [list(losses), F, agg, list(TP), S, rg, V.Opt(kn, k)]))
+            pre = f"C02.t{t}.pipeline"
+            cx.oblige(f"{pre}.built_and_run_once_on_valid_call", kind == "return" and len(captured) == 1, where=str(getattr(out, "where", "")))
+            if kind != "return" or len(captured) != 1:
+                return
+            chain = flatten_composition(captured[0])
+            names = [getattr(getattr(o, "cls", None), "name", "?") for o in chain]
+            cx.oblige(f"{pre}.shape_is_accumulate_aggregate_jac_stack", names == ["Accumulate", "Aggregate", "Jac", "Stack"])
+            if names != ["Accumulate", "Aggregate", "Jac", "Stack"]:
+                return
+            acc, aggr, jac, stack = chain
+            cx.oblige(f"{pre}.accumulate_into_shared", set_is(cx, it, acc.attrs["_required_keys"], S, "acc"))
+            am = [o for o in flatten_composition(aggr.attrs["transform"]) if "aggregator" in o.attrs]
+            cx.oblige(f"{pre}.aggregate_over_shared_in_order", len(am) == 1 and am[0].attrs["aggregator"] is agg)
+            if am:
+                cx.oblige(f"{pre}.aggregate_key_order_is_shared", seq_eq(cx, keys_of(it, am[0].attrs["key_order"]), S, "ko"))
+            cx.oblige(f"{pre}.jac_from_features_to_shared", z3.And(seq_eq(cx, keys_of(it, jac.attrs["outputs"]), F, "jo"),
+                                                                  seq_eq(cx, keys_of(it, jac.attrs["inputs"]), S, "ji")))
+            ch = jac.attrs["chunk_size"]
+            cx.oblige(f"{pre}.jac_gets_chunk_and_retain", z3.And(lift(ch.is_none) == kn, z3.Implies(z3.Not(kn), lift(ch.value) == k),
+                                                               lift(jac.attrs["retain_graph"]) == rg, jac.attrs["create_graph"] is False))
+            trs = stack.attrs["transforms"]
+            cx.oblige(f"{pre}.one_task_transform_per_loss", isinstance(trs, list) and len(trs) == t)
+            if not (isinstance(trs, list) and len(trs) == t):
+                return
+            for i in range(t):
+                tc = flatten_composition(trs[i])
+                tn = [getattr(getattr(o, "cls", None), "name", "?") for o in tc]
+                ok = tn == ["Conjunction", "Grad", "Init"]
+                cx.oblige(f"{pre}.task{i}.shape_is_conjunction_grad_init", ok)
+                if not ok:
+                    continue
+                conj, grad, init = tc
+                cx.oblige(f"{pre}.task{i}.init_is_its_loss", set_is(cx, it, init.attrs["values"], P.conc_seq([losses[i]]), "iv"))
+                gin = keys_of(it, grad.attrs["inputs"])
+                cx.oblige(f"{pre}.task{i}.grad_of_its_loss_wrt_its_params_then_features",
+                          z3.And(seq_eq(cx, keys_of(it, grad.attrs["outputs"]), [losses[i]], "go"),
+                                 seq_eq(cx, gin, P.binop(it, __import__("ast").Add(), TP[i], F), "gi")))
+                cx.oblige(f"{pre}.task{i}.grad_gets_retain_flag", z3.And(lift(grad.attrs["retain_graph"]) == rg, grad.attrs["create_graph"] is False))
+                members = conj.attrs["transforms"]
+                sel = [m for m in members if getattr(getattr(m, "cls", None), "name", "") == "Select"]
+                comp = [m for m in members if getattr(getattr(m, "cls", None), "name", "") == "Composition"]
+                cx.oblige(f"{pre}.task{i}.conjunction_of_select_and_accumulate", len(members) == 2 and len(sel) == 1 and len(comp) == 1)
+                if len(sel) == 1 and len(comp) == 1:
+                    cx.oblige(f"{pre}.task{i}.backpropagates_the_features", set_is(cx, it, sel[0].attrs["keys"], F, "sk"))
+                    ac, se = flatten_composition(comp[0])
+                    cx.oblige(f"{pre}.task{i}.accumulates_its_params", z3.And(set_is(cx, it, ac.attrs["_required_keys"], TP[i], "ak"),
+                                                                             set_is(cx, it, se.attrs["keys"], TP[i], "sk2")))
+        H.explore(body, max_paths=4000)
+    return Check(f"mtl.structure.t{t}", FUNCS, fn, replay_keys=["C02."])
+
+
+CHECKS = [mtl_structure(2), mtl_structure(3)]
+THOROUGH_CHECKS = [mtl_check(1)]
